@@ -125,7 +125,8 @@ def with_gap(data):
             if ev[1] >= 7 and idx + ev[1] < len(data["wl"]) - 4:
                 d = dict(data)
                 d["wl"] = data["wl"][:idx + 2] + data["wl"][idx + 5:]
-                return d
+                d.pop("ranges", None)       # the planted level ranges describe the record without the hole: the oracle for
+                return d                    # "nothing to align" must then read the tables (shared_levels)
             idx += ev[1]
     return None
 
